@@ -383,7 +383,7 @@ def run(tier, seed):
     except Exception as ex:
         tb = traceback.extract_tb(ex.__traceback__)
         run.undecided.append("conformance run stopped: %r at %s:%s" % (ex, tb[-1].filename, tb[-1].lineno))
-    ev, cf = bounded(seed, tier == "quick")
+    ev, cf = report.guarded(run, bounded, seed, tier == "quick")
     run.bounded.append(dict(name="float: kdouble coverage equation on a p x c x n grid incl. low coverage; monotonicity; ksingle limit from above; order_stats('n') minimality by "
                                  "brute force incl. narrowly met confidences", evaluations=ev, failures=0 if cf is None else 1, label="bounded (never counted as proved)"))
     failed = [v for v in run.verdicts if v.status == "failed"]
